@@ -67,8 +67,8 @@ def main():
             print(f"algo/{cfg}:", vlib.parse_tlc_stats(r.stdout))
             layer2[cfg] = dict(vlib.parse_tlc_stats(r.stdout), result="no invariant violated")
     # self-consistency of the oracles: codecs (encoders against denotations, generative against analytic definitions) and
-    # text (what the formatter may print against the parser contracts and native digits)
-    for mod, cfg in (("MC_Codecs", "MC_Codecs_small"), ("MC_Text", "MC_Text_small")):
+    # text (what the formatter may print against the parser contracts and native digits), floats (tiny formats, all patterns)
+    for mod, cfg in (("MC_Codecs", "MC_Codecs_small"), ("MC_Text", "MC_Text_small"), ("MC_Float", "MC_Float_small")):
         meta = os.path.join(vlib.OUT, cfg.lower())
         try:
             r = subprocess.run(vlib.tlc_cmd(mod + ".tla", cfg + ".cfg", meta, workers=8, gc="-XX:+UseParallelGC", xmx="6g"),
